@@ -1436,3 +1436,324 @@ Proof.
         destruct (Fin _ _ _ SO) as [K1 K2]; [contradiction|intros _; split; [exact I|exact Wt]|].
         split; [exact K1|]. intros p' [= <-]. exact K2.
 Qed.
+
+(* ---------------------------------------------------------------- frames *)
+Lemma RInv_fs p fs fs' : f_sst fs' = f_sst fs -> RInv p fs -> RInv p fs'.
+Proof.
+  intros E [H1 H2 H3 H4 H5 H6 H7 H8 H9 H10 [M1 M2 M3 M4 M5 M6] H12 H13].
+  split; auto.
+  - intros x Hx. rewrite E. auto.
+  - split; auto. intros a x r b Es. rewrite E. eauto.
+  - destruct H12 as [K|[[x [L [r [n [K1 [K2 K3]]]]]]|K]]; [left; exact K| |right; right; exact K].
+    right. left. exists x, L, r, n. rewrite E. auto.
+Qed.
+
+Lemma RInv_kvs p fs a b c d : RInv p fs -> RInv (set_kvs p a b c d) fs.
+Proof.
+  intros [H1 H2 H3 H4 H5 H6 H7 H8 H9 H10 [M1 M2 M3 M4 M5 M6] H12 H13].
+  split; auto. split; auto.
+Qed.
+
+Lemma GFs_fs fs fs' : f_sst fs' = f_sst fs -> md_live (f_md fs') = md_live (f_md fs) -> GFs fs -> GFs fs'.
+Proof. intros E1 E2 G x Hx. unfold GFs in *. rewrite E1. rewrite E2 in Hx. auto. Qed.
+
+(* a thread that is neither the opening one nor the memtable thread gets a program *)
+Lemma RInv_spawn p fs t prog :
+  RInv p fs -> main_pc p = [] -> t <> T_MAIN -> t <> T_FLUSH -> pc_get t p = [] -> worker_ok prog ->
+  (forall x, npin x prog = nrel x prog) ->
+  (forall x, In (ICommit (Some (mkEdit [] [x] None)) false) [] -> True) ->
+  (forall x L r n rest, pc_get T_FLUSH p = rest ++ [ICommit (Some (mkEdit [] [x] L)) r; IRenameLog n] -> npin x prog = O) ->
+  RInv (pc_set t prog p) fs.
+Proof.
+  intros R Hm Ht Hf Hidle W Heq _ Hfl.
+  pose proof (RInv_core _ _ R) as C. pose proof (vers_nonempty _ _ R Hm) as Hv.
+  assert (Hr : forall x, spc (nrel x) (p_pcs (pc_set t prog p)) = (spc (nrel x) (p_pcs p) + nrel x prog)%nat).
+  { intros x. pose proof (spc_set (nrel x) t prog p (nrel_nil x) (c_keys _ _ _ C)) as H. rewrite Hidle, nrel_nil in H. lia. }
+  assert (Hp : forall x, spc (npin x) (p_pcs (pc_set t prog p)) = (spc (npin x) (p_pcs p) + npin x prog)%nat).
+  { intros x. pose proof (spc_set (npin x) t prog p (npin_nil x) (c_keys _ _ _ C)) as H. rewrite Hidle, npin_nil in H. lia. }
+  apply RInv_join.
+  - split.
+    + exact (c_wf _ _ _ C).
+    + apply pc_set_keys, (c_keys _ _ _ C).
+    + exact (c_skeys _ _ _ C).
+    + intros x. rewrite Hr, Hp, Heq. pose proof (c_bal _ _ _ C x). cbn [p_refs p_vers pc_set set_pcs]. lia.
+    + exact (c_sst _ _ _ C).
+    + exact (c_strong _ _ _ C).
+    + exact (c_hvalid _ _ _ C).
+    + exact (c_cur _ _ _ C).
+    + exact (c_reg _ _ _ C).
+    + exact (c_strs _ _ _ C).
+  - apply main_ok_idle; [|exact Hv]. unfold main_pc. rewrite pc_get_set_other by congruence. exact Hm.
+  - assert (Ef : pc_get T_FLUSH (pc_set t prog p) = pc_get T_FLUSH p) by (apply pc_get_set_other; congruence).
+    destruct (r_flush _ _ R) as [[x [L [r [n [E Hz]]]]]|[[x [L [r [n [E [Hx [Q1 [Q2 Q3]]]]]]]]|K]]; unfold flush_ok; rewrite Ef.
+    + left. exists x, L, r, n. split; [exact E|]. rewrite Hp, Hz. apply (Hfl x L r n [ILinkExcl x]). exact E.
+    + right. left. exists x, L, r, n. split; [exact E|split; [exact Hx|]].
+      assert (Hz : npin x prog = O) by (apply (Hfl x L r n []); exact E).
+      split; [exact Q1|split]; [rewrite Hr, <- Heq, Hz; lia|rewrite Hp, Hz; lia].
+    + right. right. exact K.
+  - intros t' H1 H2. destruct (N.eq_dec t' t) as [->|Hne]; [now rewrite pc_get_set_same|].
+    rewrite pc_get_set_other by assumption. exact (r_work _ _ R t' H1 H2).
+Qed.
+
+(* ---------------------------------------------------------------- the program of open() *)
+Definition linked (l : list instr) : Prop :=
+  forall a x r b, l = a ++ IApplyIfAbsent x r :: b -> In (ILinkIfAbsent x) a.
+
+Lemma linked_app l1 l2 : linked l1 -> linked l2 -> linked (l1 ++ l2).
+Proof.
+  intros H1 H2 a x r b E. apply app_eq_app in E. destruct E as [l [[E1 E2]|[E1 E2]]].
+  - (* the split point lies in l1 or at its end *)
+    destruct l as [|j l].
+    + rewrite app_nil_r in E1. subst a. cbn [app] in E2. destruct (H2 [] x r b (eq_sym E2)).
+    + cbn [app] in E2. injection E2 as <- E2. apply (H1 a x r l). exact E1.
+  - subst a. apply in_or_app. right. apply (H2 l x r b). exact E2.
+Qed.
+
+Lemma linked_noapply l : (forall x r, ~ In (IApplyIfAbsent x r) l) -> linked l.
+Proof. intros H a x r b E. exfalso. apply (H x r). rewrite E. apply in_or_app. right. now left. Qed.
+
+Lemma linked_recover sums rolls lg : linked (recover_prog sums rolls lg).
+Proof.
+  unfold recover_prog. destruct (aget (l_num lg) sums) as [x|]; [destruct (l_maxts lg =? 0)|].
+  - apply linked_noapply. intros y r [H|[]]. discriminate.
+  - intros a y r b E. destruct a as [|j a]; [discriminate|]. injection E as <- E.
+    destruct a as [|k a]; [injection E as <- _ _; now left|]. injection E as _ E. destruct a as [|k2 a]; [discriminate|].
+    injection E as _ E. destruct a; discriminate.
+  - apply linked_noapply. intros y r [H|[]]. discriminate.
+Qed.
+
+Lemma linked_flat sums rolls logs : linked (flat_map (recover_prog sums rolls) logs).
+Proof.
+  induction logs as [|lg logs IH]; cbn [flat_map]; [apply linked_noapply; intros x r []|].
+  apply linked_app; [apply linked_recover|exact IH].
+Qed.
+
+Lemma sorted_rank2_prefix mid tailp : (forall i, In i mid -> rank i = 2%nat) -> StronglySorted rk_rel tailp ->
+  (forall j, In j tailp -> (2 < rank j)%nat) -> StronglySorted rk_rel (mid ++ tailp).
+Proof.
+  intros Hm Hs Ht. induction mid as [|i mid IH]; [assumption|]. cbn [app]. constructor.
+  - apply IH. intros j Hj. apply Hm. now right.
+  - rewrite Forall_forall. intros j Hj. pose proof (Hm i (or_introl eq_refl)) as Hi. apply in_app_iff in Hj. destruct Hj as [Hj|Hj].
+    + right. rewrite Hi, (Hm j (or_intror Hj)). auto.
+    + left. rewrite Hi. now apply Ht.
+Qed.
+
+Lemma open_main_ok sums rolls logs rec tm fs :
+  let prog := [IManiOpen; IInitEdit] ++ flat_map (recover_prog sums rolls) logs ++ [IFromManifest; IOrphans; INewLog rec tm] in
+  main_ok (pc_set T_MAIN prog fresh_proc) fs.
+Proof.
+  cbn zeta. set (mid := flat_map (recover_prog sums rolls) logs).
+  set (prog := [IManiOpen; IInitEdit] ++ mid ++ [IFromManifest; IOrphans; INewLog rec tm]).
+  assert (Em : main_pc (pc_set T_MAIN prog fresh_proc) = prog) by apply pc_get_set_same.
+  assert (Hmid : forall i, In i mid -> match i with ILinkIfAbsent _ | IApplyIfAbsent _ _ | IRenameLog _ => True | _ => False end).
+  { intros i Hi. apply in_flat_map in Hi. destruct Hi as [l [_ Hl]]. exact (recover_prog_instrs _ _ _ _ Hl). }
+  assert (Hmid2 : forall i, In i mid -> rank i = 2%nat).
+  { intros i Hi. specialize (Hmid i Hi). destruct i; try contradiction; reflexivity. }
+  assert (Hin : forall i, In i prog -> i = IManiOpen \/ i = IInitEdit \/ In i mid \/ i = IFromManifest \/ i = IOrphans \/ i = INewLog rec tm).
+  { intros i Hi. subst prog. cbn [app] in Hi. destruct Hi as [<-|[<-|Hi]]; auto. apply in_app_iff in Hi.
+    destruct Hi as [Hi|[<-|[<-|[<-|[]]]]]; auto 10. }
+  split; rewrite ?Em.
+  - subst prog. cbn [app].
+    assert (Hs : StronglySorted rk_rel (mid ++ [IFromManifest; IOrphans; INewLog rec tm])).
+    { apply sorted_rank2_prefix; [exact Hmid2| |].
+      - repeat constructor; left; cbn; lia.
+      - intros j [<-|[<-|[<-|[]]]]; cbn; lia. }
+    assert (Hge : forall j, In j (mid ++ [IFromManifest; IOrphans; INewLog rec tm]) -> (2 <= rank j)%nat).
+    { intros j Hj. apply in_app_iff in Hj. destruct Hj as [Hj|[<-|[<-|[<-|[]]]]]; [rewrite (Hmid2 j Hj)|cbn|cbn|cbn]; lia. }
+    constructor; [constructor; [exact Hs|]|].
+    + rewrite Forall_forall. intros j Hj. left. specialize (Hge j Hj). cbn. lia.
+    + rewrite Forall_forall. intros j [<-|Hj]; left; [cbn; lia|]. specialize (Hge j Hj). cbn. lia.
+  - rewrite Forall_forall. intros i Hi. destruct (Hin i Hi) as [E|[E|[H|[E|[E|E]]]]]; try (rewrite E; cbn; lia). rewrite (Hmid2 i H). lia.
+  - intros a x r b E. left. revert a x r b E. change (linked prog). subst prog.
+    apply linked_app; [apply linked_noapply; intros x r [H|[H|[]]]; discriminate|].
+    apply linked_app; [apply linked_flat|apply linked_noapply; intros x r [H|[H|[H|[]]]]; discriminate].
+  - intros x Hx. exfalso. destruct (Hin _ Hx) as [H|[H|[H|[H|[H|H]]]]]; try discriminate. exact (Hmid _ H).
+  - left. split; [|split; [reflexivity|split; [reflexivity|split; [reflexivity|]]]].
+    + subst prog. apply in_or_app. right. apply in_or_app. right. now left.
+    + intros x Hx. destruct (Hin _ Hx) as [H|[H|[H|[H|[H|H]]]]]; try discriminate. exact (Hmid _ H).
+  - intros _ H. exfalso. apply H. reflexivity.
+Qed.
+
+Lemma compaction_prog_counts ins outs roll (hold : bool) y :
+  let prog := (if hold then [ITake H_COMPACT] else [])
+              ++ map IPinLink outs ++ [ICommit (Some (mkEdit ins outs None)) roll]
+              ++ map IRelease outs ++ (if hold then [IDropSnap H_COMPACT] else []) in
+  npin y prog = cnt y outs /\ nrel y prog = cnt y outs.
+Proof.
+  cbn zeta. rewrite !npin_app, !nrel_app, npin_pins, nrel_pins, npin_releases, nrel_releases.
+  destruct hold; cbn [npin nrel filter is_pin is_rel length]; split; lia.
+Qed.
+
+(* ---------------------------------------------------------------- the theorem *)
+Lemma GInv_GFs s : GInv s <-> GFs (s_fs s).
+Proof. unfold GInv, GFs, live_strs. tauto. Qed.
+
+Lemma spc_all_zero f pcs : (forall k l, In (k, l) pcs -> f l = O) -> spc f pcs = O.
+Proof. apply spc_zero. Qed.
+
+Theorem InvR_step s ev : InvM s -> InvR s -> InvR (step s ev).
+Proof.
+  intros [HM HP] [G HR]. apply GInv_GFs in G.
+  destruct ev as [sums rolls tm|t| |x roll|ins outs roll hold| |r|r| | |ok| ]; cbn [step].
+  - (* EOpen *)
+    destruct (s_p s) as [p|] eqn:Ep; [split; [now apply GInv_GFs|now rewrite Ep]|].
+    match goal with |- InvR (if ?c then _ else _) => destruct c end; [|split; [now apply GInv_GFs|now rewrite Ep]].
+    split; [apply GInv_GFs; cbn [s_fs upd_p upd_fs]; apply (GFs_fs (s_fs s)); [reflexivity|reflexivity|exact G]|].
+    cbn [s_p s_fs upd_p upd_fs]. intros p [= <-].
+    match goal with |- RInv (pc_set _ ?pr _) ?f => set (prog := pr); set (fs' := f) end.
+    apply RInv_opening; try reflexivity.
+    + apply pc_set_keys. constructor.
+    + intros t Ht. rewrite pc_get_set_other by assumption. reflexivity.
+    + apply open_main_ok.
+  - (* EStep *)
+    destruct (s_p s) as [p|] eqn:Ep; [|split; [now apply GInv_GFs|now rewrite Ep]].
+    destruct (pc_get t p) as [|i rest] eqn:Epc; [split; [now apply GInv_GFs|now rewrite Ep]|].
+    destruct (negb (p_ready p) && negb (t =? T_MAIN)) eqn:Eg; [split; [now apply GInv_GFs|now rewrite Ep]|].
+    destruct (HP p eq_refl) as [[P1 P2 P3 P4] PH]. specialize (HR p eq_refl).
+    destruct (exec t i s (pc_set t rest p)) as [s1 op] eqn:Ee.
+    assert (K : GFs (s_fs s1) /\ forall p', op = Some p' -> RInv p' (s_fs s1)).
+    { destruct (N.eq_dec t T_MAIN) as [->|Ht].
+      - assert (Hnr : p_ready p = false).
+        { destruct (p_ready p) eqn:Er; [|reflexivity]. unfold main_pc in P3. rewrite (P3 eq_refl) in Epc. discriminate. }
+        apply (step_main s p i rest s1 op HM); auto.
+        intros Hne. apply PH. unfold main_pc. rewrite Epc. intros [H|H]; [congruence|]. apply P1. unfold main_pc. now rewrite Epc.
+      - assert (Hr : p_ready p = true).
+        { destruct (p_ready p); [reflexivity|]. cbn in Eg. destruct (N.eqb_spec t T_MAIN); [contradiction|discriminate]. }
+        apply (step_work s p t i rest s1 op); auto.
+        apply PH. unfold main_pc in *. rewrite (P3 Hr). intros []. }
+    destruct K as [K1 K2]. split; [apply GInv_GFs; exact K1|]. cbn [s_p s_fs upd_p]. intros p' Hp'. now apply K2.
+  - (* EWrite *)
+    destruct (s_p s) as [p|] eqn:Ep; [|split; [now apply GInv_GFs|now rewrite Ep]].
+    destruct (p_ready p) eqn:Er; [|split; [now apply GInv_GFs|now rewrite Ep]].
+    split; [apply GInv_GFs; apply (GFs_fs (s_fs s)); [reflexivity|reflexivity|exact G]|].
+    cbn [s_p s_fs upd_p upd_fs]. intros p' [= <-]. apply RInv_kvs. apply (RInv_fs p (s_fs s)); [reflexivity|]. now apply HR.
+  - (* EFlush *)
+    destruct (s_p s) as [p|] eqn:Ep; [|split; [now apply GInv_GFs|now rewrite Ep]].
+    match goal with |- InvR (if ?c then _ else _) => destruct c eqn:Ec end; [|split; [now apply GInv_GFs|now rewrite Ep]].
+    apply andb_prop in Ec. destruct Ec as [Ec Epins]. apply andb_prop in Ec. destruct Ec as [Er Ebusy].
+    split; [apply GInv_GFs; apply (GFs_fs (s_fs s)); [reflexivity|reflexivity|exact G]|].
+    cbn [s_p s_fs upd_p upd_fs]. intros p' [= <-].
+    destruct (HP p eq_refl) as [[P1 P2 P3 P4] PH]. specialize (HR p eq_refl).
+    assert (Hm : main_pc p = []) by (apply P3; exact Er).
+    assert (Hidle : pc_get T_FLUSH p = []).
+    { unfold busy in Ebusy. destruct (pc_get T_FLUSH p); [reflexivity|discriminate]. }
+    apply (RInv_fs _ (s_fs s)); [reflexivity|].
+    set (q := set_kvs p (p_seq p + 1) (p_seq p) (p_seq p) true).
+    assert (Rq : RInv q (s_fs s)) by now apply RInv_kvs.
+    set (prog := [ILinkExcl x; ICommit (Some (mkEdit [] [x] (Some (p_memseq p)))) roll; IRenameLog (p_lognum p)]).
+    pose proof (RInv_core _ _ Rq) as C. pose proof (vers_nonempty _ _ HR Hm) as Hv.
+    assert (Hr' : forall y, spc (nrel y) (p_pcs (pc_set T_FLUSH prog q)) = spc (nrel y) (p_pcs q)).
+    { intros y. pose proof (spc_set (nrel y) T_FLUSH prog q (nrel_nil y) (c_keys _ _ _ C)) as H.
+      change (pc_get T_FLUSH q) with (pc_get T_FLUSH p) in H. rewrite Hidle in H. unfold prog in *.
+      rewrite !nrel_cons, !nrel_nil in H. cbn [is_rel] in H. lia. }
+    assert (Hp' : forall y, spc (npin y) (p_pcs (pc_set T_FLUSH prog q)) = spc (npin y) (p_pcs q)).
+    { intros y. pose proof (spc_set (npin y) T_FLUSH prog q (npin_nil y) (c_keys _ _ _ C)) as H.
+      change (pc_get T_FLUSH q) with (pc_get T_FLUSH p) in H. rewrite Hidle in H. unfold prog in *.
+      rewrite !npin_cons, !npin_nil in H. cbn [is_pin] in H. lia. }
+    apply RInv_join.
+    + split.
+      * exact (c_wf _ _ _ C).
+      * apply pc_set_keys, (c_keys _ _ _ C).
+      * exact (c_skeys _ _ _ C).
+      * intros y. rewrite Hr', Hp'. exact (c_bal _ _ _ C y).
+      * exact (c_sst _ _ _ C).
+      * exact (c_strong _ _ _ C).
+      * exact (c_hvalid _ _ _ C).
+      * exact (c_cur _ _ _ C).
+      * exact (c_reg _ _ _ C).
+      * exact (c_strs _ _ _ C).
+    + apply main_ok_idle; [|exact Hv]. unfold main_pc. rewrite pc_get_set_other by discriminate. exact Hm.
+    + left. exists x, (Some (p_memseq p)), roll, (p_lognum p). split; [apply pc_get_set_same|].
+      rewrite Hp'. apply spc_zero. intros k l Hin. rewrite forallb_forall in Epins. specialize (Epins (k, l) Hin). cbn [snd] in Epins.
+      apply negb_true_iff in Epins. unfold npin.
+      assert (Hnone : forall i, In i l -> is_pin x i = false).
+      { intros i Hi. destruct (is_pin x i) eqn:E; [|reflexivity]. exfalso.
+        assert (Hex : existsb (fun i => match i with IPinLink y => x =? y | _ => false end) l = true).
+        { apply existsb_exists. exists i. split; [exact Hi|]. destruct i; try discriminate. exact E. }
+        congruence. }
+      clear -Hnone. induction l as [|i l IH]; [reflexivity|]. cbn [filter]. rewrite (Hnone i (or_introl eq_refl)).
+      apply IH. intros j Hj. apply Hnone. now right.
+    + intros t H1 H2. rewrite pc_get_set_other by assumption. exact (r_work _ _ Rq t H1 H2).
+  - (* ECompact *)
+    destruct (s_p s) as [p|] eqn:Ep; [|split; [now apply GInv_GFs|now rewrite Ep]].
+    match goal with |- InvR (if ?c then _ else _) => destruct c eqn:Ec end; [|split; [now apply GInv_GFs|now rewrite Ep]].
+    apply andb_prop in Ec. destruct Ec as [Ec Efl]. apply andb_prop in Ec. destruct Ec as [Er Ebusy].
+    split; [now apply GInv_GFs|]. cbn [s_p s_fs upd_p]. intros p' [= <-].
+    destruct (HP p eq_refl) as [[P1 P2 P3 P4] PH]. specialize (HR p eq_refl).
+    assert (Hidle : pc_get T_COMPACT p = []).
+    { unfold busy in Ebusy. destruct (pc_get T_COMPACT p); [reflexivity|discriminate]. }
+    apply RInv_spawn; auto; try discriminate.
+    + apply worker_ok_compaction.
+    + intros y. destruct (compaction_prog_counts ins outs roll hold y) as [K1 K2]. cbn zeta in K1, K2.
+      etransitivity; [exact K1|symmetry; exact K2].
+    + intros y L r n pre Efp. apply negb_true_iff in Efl.
+      assert (Hno : ~ In y outs).
+      { intros Hin. assert (Hex : existsb (fun i => match i with ICommit (Some e) _ => existsb (fun z => mem z outs) (e_add e) | _ => false end) (pc_get T_FLUSH p) = true).
+        { apply existsb_exists. exists (ICommit (Some (mkEdit [] [y] L)) r). split.
+          - rewrite Efp. apply in_or_app. right. now left.
+          - cbn [e_add existsb]. apply mem_In in Hin. now rewrite Hin. }
+        congruence. }
+      assert (Hc : cnt y outs = O) by (destruct (cnt y outs) eqn:E; [reflexivity|exfalso; apply Hno, cnt_pos; lia]).
+      destruct (compaction_prog_counts ins outs roll hold y) as [K1 _]. cbn zeta in K1. etransitivity; [exact K1|exact Hc].
+  - (* EMove *)
+    destruct (s_p s) as [p|] eqn:Ep; [|split; [now apply GInv_GFs|now rewrite Ep]].
+    match goal with |- InvR (if ?c then _ else _) => destruct c eqn:Ec end; [|split; [now apply GInv_GFs|now rewrite Ep]].
+    apply andb_prop in Ec. destruct Ec as [Er Ebusy].
+    split; [now apply GInv_GFs|]. cbn [s_p s_fs upd_p]. intros p' [= <-].
+    destruct (HP p eq_refl) as [[P1 P2 P3 P4] PH]. specialize (HR p eq_refl).
+    assert (Hidle : pc_get T_COMPACT p = []).
+    { unfold busy in Ebusy. destruct (pc_get T_COMPACT p); [reflexivity|discriminate]. }
+    apply RInv_spawn; auto; try discriminate.
+    split; [repeat constructor|split].
+    + apply balanced_no_pins. intros y. reflexivity.
+    + intros a e r b E. destruct a as [|j a]; [discriminate|]. injection E as _ E. destruct a; discriminate.
+  - (* ETake *)
+    destruct (s_p s) as [p|] eqn:Ep; [|split; [now apply GInv_GFs|now rewrite Ep]].
+    match goal with |- InvR (if ?c then _ else _) => destruct c eqn:Ec end; [|split; [now apply GInv_GFs|now rewrite Ep]].
+    apply andb_prop in Ec. destruct Ec as [Ec _]. apply andb_prop in Ec. destruct Ec as [Er Ebusy].
+    split; [now apply GInv_GFs|]. cbn [s_p s_fs upd_p]. intros p' [= <-].
+    destruct (HP p eq_refl) as [[P1 P2 P3 P4] PH]. specialize (HR p eq_refl).
+    assert (Hidle : pc_get (T_READER r) p = []).
+    { unfold busy in Ebusy. destruct (pc_get (T_READER r) p); [reflexivity|discriminate]. }
+    apply RInv_spawn; auto; try (unfold T_READER, T_MAIN, T_FLUSH; lia).
+    split; [repeat constructor|split].
+    + apply balanced_no_pins. intros y. reflexivity.
+    + intros a e r0 b E. destruct a as [|j a]; [discriminate|]. injection E as _ E. destruct a; discriminate.
+  - (* EDrop *)
+    destruct (s_p s) as [p|] eqn:Ep; [|split; [now apply GInv_GFs|now rewrite Ep]].
+    match goal with |- InvR (if ?c then _ else _) => destruct c eqn:Ec end; [|split; [now apply GInv_GFs|now rewrite Ep]].
+    apply andb_prop in Ec. destruct Ec as [Er Ebusy].
+    split; [now apply GInv_GFs|]. cbn [s_p s_fs upd_p]. intros p' [= <-].
+    destruct (HP p eq_refl) as [[P1 P2 P3 P4] PH]. specialize (HR p eq_refl).
+    assert (Hidle : pc_get (T_READER r) p = []).
+    { unfold busy in Ebusy. destruct (pc_get (T_READER r) p); [reflexivity|discriminate]. }
+    apply RInv_spawn; auto; try (unfold T_READER, T_MAIN, T_FLUSH; lia).
+    split; [repeat constructor|split].
+    + apply balanced_no_pins. intros y. reflexivity.
+    + intros a e r0 b E. destruct a as [|j a]; [discriminate|]. injection E as _ E. destruct a; discriminate.
+  - (* ECrash *)
+    split; [now apply GInv_GFs|]. cbn [s_p upd_p]. discriminate.
+  - (* EVBegin *)
+    destruct (s_v s); (split; [now apply GInv_GFs|exact HR]).
+  - (* EVStep *)
+    destruct (s_v s) as [[pc]|] eqn:Ev; [|split; [now apply GInv_GFs|exact HR]]. cbn [vp_pc].
+    destruct pc as [|i rest]; [split; [now apply GInv_GFs|exact HR]|].
+    destruct (vexec i ok rest (s_fs s)) as [fs' pc'] eqn:Ex.
+    destruct (vexec_inv _ _ _ _ _ _ _ HM Ex) as [_ [K2 [_ [K4 _]]]].
+    split; [apply GInv_GFs; cbn [s_fs upd_v upd_fs]; apply (GFs_fs (s_fs s)); [exact K4|exact K2|exact G]|].
+    cbn [s_p s_fs upd_v upd_fs]. intros p Hp. apply (RInv_fs p (s_fs s)); [exact K4|now apply HR].
+  - (* EVCrash *)
+    split; [now apply GInv_GFs|exact HR].
+Qed.
+
+Lemma InvR_init : InvR sys0.
+Proof. split; [intros x []|discriminate]. Qed.
+
+Theorem Inv_run evs : forall s, InvM s -> InvR s -> InvM (run s evs) /\ InvR (run s evs).
+Proof.
+  induction evs as [|e evs IH]; intros s HM HR; cbn [run]; [tauto|].
+  apply IH; [apply InvM_step, HM|apply InvR_step; assumption].
+Qed.
+
+Theorem Inv_reach evs : InvM (run sys0 evs) /\ InvR (run sys0 evs).
+Proof. apply Inv_run; [apply InvM_init|apply InvR_init]. Qed.
